@@ -27,7 +27,7 @@ VARIABLES
     kids,    \* kids[n] : sequence of children (append order, as the server keeps it)
     br,      \* br[n]   : branch name ("" = master)
     lk,      \* lk[n]   : committed?
-    kind,    \* kind[n] \in {"root","ver","merge"}
+    kind,    \* kind[n] \in {"root","ver","merge"}; "hidden" once a hide-branch request removed the node
     rp,      \* rp[n]   : root node of n's repo
     uid,     \* uid[n]  : "auto" (server generated, unique) or a member of UUIDPool
     head,    \* head    : function from <<root, branch>> to the branch's leaf as tracked by the server
@@ -38,7 +38,8 @@ dagvars == <<nn, par, kids, br, lk, kind, rp, uid, head, dead>>
 vars == <<nn, par, kids, br, lk, kind, rp, uid, head, dead, last>>
 
 Nodes == 1..nn
-Live == {n \in Nodes : rp[n] \notin dead}      \* nodes a client can still address
+Vis == {n \in Nodes : kind[n] # "hidden"}      \* nodes not removed by a hide-branch request
+Live == {n \in Vis : rp[n] \notin dead}        \* nodes a client can still address
 Roots == {n \in Nodes : kind[n] = "root"}
 LiveRoots == Roots \ dead
 NoNode == 0                       \* an address that names no node ("unknown uuid")
@@ -115,14 +116,20 @@ Commit_Rej(n) ==
 (* branch; POST /api/node/<n>/branch {"branch": b, "uuid": u?}             *)
 (***************************************************************************)
 SisterHas(n, b) == \E i \in 1..Len(kids[n]) : br[kids[n][i]] = b
-BranchUsed(root, b) == \E m \in Nodes : rp[m] = root /\ br[m] = b
+BranchUsed(root, b) == \E m \in Vis : rp[m] = root /\ br[m] = b
 
 CanVersion(n, b) ==
     /\ n \in Live /\ lk[n]
     /\ IF b = br[n] THEN ~SisterHas(n, b) ELSE ~BranchUsed(rp[n], b)
 
 G_NewVersion(n, u) == n \in Live /\ CanVersion(n, br[n]) /\ UUIDFree(u)
-G_Branch(n, b, u) == n \in Live /\ b \notin {"", "master"} /\ CanVersion(n, b) /\ UUIDFree(u)
+\* Representative of branch names the address syntax <uuid>:<branch>[~<N>] cannot express ('~'
+\* separates a parent number): such a branch could never be addressed (or would address another
+\* version), so it must not be created.  A name with ':' (e.g. "a:b") is expressible - everything
+\* after the first colon of an address is the branch name - and is an ordinary name.
+BadBranches == {"a~1"}
+ValidBranchName(b) == b \notin {"", "master"} /\ b \notin BadBranches
+G_Branch(n, b, u) == n \in Live /\ ValidBranchName(b) /\ CanVersion(n, b) /\ UUIDFree(u)
 
 NewVersion_Ok(n, u) ==
     /\ nn < MaxNodes
@@ -261,7 +268,7 @@ Inv_Acyclic == \A n \in Nodes : \A i \in 1..Len(par[n]) : par[n][i] < n
 
 \* parent and child links mirror each other, no duplicates
 Inv_Mirror ==
-    \A p, c \in Nodes :
+    \A p, c \in Vis :
         /\ Cardinality({i \in 1..Len(par[c]) : par[c][i] = p}) = Cardinality({i \in 1..Len(kids[p]) : kids[p][i] = c})
         /\ Cardinality({i \in 1..Len(par[c]) : par[c][i] = p}) <= 1
 
@@ -272,9 +279,9 @@ Inv_UUIDUnique == \A m, n \in Live : (uid[m] # "auto" /\ uid[m] = uid[n]) => m =
 Inv_ParentsCommitted == \A n \in Nodes : \A i \in 1..Len(par[n]) : lk[par[n][i]]
 
 \* each branch made by branch / newversion requests is one linear chain with one head
-NonMerge(b, root) == {n \in Nodes : rp[n] = root /\ br[n] = b /\ kind[n] # "merge"}
+NonMerge(b, root) == {n \in Vis : rp[n] = root /\ br[n] = b /\ kind[n] # "merge"}
 Inv_BranchChain ==
-    \A root \in Roots : \A b \in {br[n] : n \in Nodes} :
+    \A root \in Roots : \A b \in {br[n] : n \in Vis} :
         LET S == NonMerge(b, root) IN
         \* at most one member of the branch is not the child of another member
         /\ b # "" => Cardinality({n \in S : ~\E i \in 1..Len(par[n]) : par[n][i] \in S}) <= 1
@@ -296,6 +303,204 @@ Act_C07_RejectIsStutter == [][last'.ok = FALSE => UNCHANGED dagvars]_vars
 Act_Monotone ==
     [][\A n \in Nodes : /\ (lk[n] => lk'[n])
                         /\ par'[n] = par[n] /\ br'[n] = br[n] /\ uid'[n] = uid[n] /\ rp'[n] = rp[n]]_vars
+
+(***************************************************************************)
+(* GROWTH (second round): repo-level operations offered by the RPC         *)
+(* interface and graph-neutral instance requests.  They are not part of    *)
+(* Next (the first-round state graph stays as it was); NextG adds them.    *)
+(***************************************************************************)
+Max(S) == CHOOSE x \in S : \A y \in S : y <= x
+
+\* The branch heads a server computes from the graph alone when it loads a repo: per branch name
+\* the most recently created chain head (a non-merge node without a non-merge child on its own
+\* branch).  Parameterised so that it can be applied to a successor state.
+ChainHeadIn(n, brx, kidsx) ==
+    /\ Len(par[n]) <= 1
+    /\ ~\E i \in 1..Len(kidsx[n]) : Len(par[kidsx[n][i]]) <= 1 /\ brx[kidsx[n][i]] = brx[n]
+HeadsOfRepo(root, brx, kidsx, kindx) ==
+    LET H == {n \in Nodes : kindx[n] # "hidden" /\ rp[n] = root /\ ChainHeadIn(n, brx, kidsx)}
+        D == {<<root, brx[n]>> : n \in H}
+    IN [x \in D |-> Max({n \in H : brx[n] = x[2]})]
+\* head with the entries of one repo replaced by the recomputed ones
+ReHead(root, brx, kidsx, kindx) ==
+    LET R == HeadsOfRepo(root, brx, kidsx, kindx)
+        Keep == {x \in DOMAIN head : x[1] # root}
+    IN [x \in Keep \cup DOMAIN R |-> IF x \in DOMAIN R THEN R[x] ELSE head[x]]
+
+\* The branch heads tracked request by request are always the ones a reload would compute
+\* (otherwise a restart would change what <uuid>:<branch> names: C03 on the DAG part).
+Inv_HeadsAsReloaded ==
+    \A root \in LiveRoots :
+        LET R == HeadsOfRepo(root, br, kids, kind) IN
+        /\ DOMAIN R = {x \in DOMAIN head : x[1] = root}
+        /\ \A x \in DOMAIN R : head[x] = R[x]
+
+(***************************************************************************)
+(* repo <n> make-master <o>: the branch that starts at n (a version made   *)
+(* by a branch request off a master version) becomes master; the master    *)
+(* versions below n's parent are renamed to o.                             *)
+(***************************************************************************)
+KidsOn(n, b) == {c \in Range(kids[n]) : br[c] = b}
+FirstKidOn(n, b) ==
+    LET I == {i \in 1..Len(kids[n]) : br[kids[n][i]] = b} IN
+    IF I = {} THEN 0 ELSE kids[n][CHOOSE i \in I : \A j \in I : i <= j]
+RECURSIVE ChainFrom(_, _)
+ChainFrom(n, b) == {n} \cup (IF FirstKidOn(n, b) = 0 THEN {} ELSE ChainFrom(FirstKidOn(n, b), b))
+
+\* the new name of the old master versions must be a legal branch name not in use (giving them the
+\* name the promoted branch gives up is a swap and fine)
+OldNameOK(n, o) == ValidBranchName(o) /\ (o = br[n] \/ ~BranchUsed(rp[n], o))
+
+\* requests that must be refused: the documentation promises failure unless n was branched directly off master
+R_MakeMaster(n, o) ==
+    \/ n \notin Live
+    \/ /\ n \in Live
+       /\ \/ br[n] = ""
+          \/ kind[n] = "ver" /\ br[par[n][1]] # ""
+          \/ kind[n] = "ver" /\ KidsOn(par[n][1], "") = {}
+          \/ ~OldNameOK(n, o)
+
+\* requests with a defined effect: the old master line below the fork is one chain of ordinary versions
+G_MakeMaster(n, o) ==
+    /\ n \in Live /\ kind[n] = "ver" /\ br[n] # "" /\ OldNameOK(n, o)
+    /\ LET p == par[n][1] IN
+       /\ br[p] = "" /\ Cardinality(KidsOn(p, "")) = 1
+       /\ \A m \in ChainFrom(FirstKidOn(p, ""), "") : kind[m] = "ver" /\ Cardinality(KidsOn(m, "")) <= 1
+
+MakeMaster_Ok(n, o) ==
+    /\ G_MakeMaster(n, o)
+    /\ LET old == ChainFrom(FirstKidOn(par[n][1], ""), "")
+           new == ChainFrom(n, br[n])
+           br2 == [m \in Nodes |-> IF m \in old THEN o ELSE IF m \in new THEN "" ELSE br[m]]
+       IN /\ br' = br2
+          /\ head' = ReHead(rp[n], br2, kids, kind)
+    /\ UNCHANGED <<nn, par, kids, lk, kind, rp, uid, dead>>
+    /\ last' = [op |-> "makemaster", node |-> n, branch |-> o, ok |-> TRUE]
+
+MakeMaster_Rej(n, o) ==
+    /\ R_MakeMaster(n, o)
+    /\ Rej([op |-> "makemaster", node |-> n, branch |-> o])
+
+\* neither: the outcome is not specified (merge versions on the old master line, ...); whatever the
+\* server answers, the graph must stay well formed (checked on the server's own graph) and stable
+MakeMaster_Probe(n, o) ==
+    /\ ~R_MakeMaster(n, o) /\ ~G_MakeMaster(n, o)
+    /\ WithRejects /\ UNCHANGED dagvars
+    /\ last' = [op |-> "makemaster", node |-> n, branch |-> o, ok |-> FALSE, probe |-> TRUE]
+
+(***************************************************************************)
+(* repo <n> hide-branch <b>: the versions of branch b of n's repo vanish    *)
+(* (their UUIDs become unknown, the data stays in the store).               *)
+(***************************************************************************)
+OnBranch(root, b) == {m \in Vis : rp[m] = root /\ br[m] = b}
+\* no remaining version descends from the branch
+BranchClosed(root, b) ==
+    \A c \in Vis : (rp[c] = root /\ br[c] # b) => \A i \in 1..Len(par[c]) : par[c][i] \notin OnBranch(root, b)
+
+R_HideBranch(n, b) == n \notin Live \/ b = ""
+G_HideBranch(n, b) == n \in Live /\ b # "" /\ BranchClosed(rp[n], b)
+
+HideBranch_Ok(n, b) ==
+    /\ G_HideBranch(n, b)
+    /\ LET S == OnBranch(rp[n], b)
+           kind2 == [m \in Nodes |-> IF m \in S THEN "hidden" ELSE kind[m]]
+           kids2 == [m \in Nodes |-> SelectSeq(kids[m], LAMBDA c : c \notin S)]
+       IN /\ kind' = kind2 /\ kids' = kids2
+          /\ head' = ReHead(rp[n], br, kids2, kind2)
+    /\ UNCHANGED <<nn, par, br, lk, rp, uid, dead>>
+    /\ last' = [op |-> "hidebranch", node |-> n, branch |-> b, ok |-> TRUE]
+
+HideBranch_Rej(n, b) ==
+    /\ R_HideBranch(n, b)
+    /\ Rej([op |-> "hidebranch", node |-> n, branch |-> b])
+
+\* versions outside the branch descend from it: refusing or hiding them too are both conceivable
+HideBranch_Probe(n, b) ==
+    /\ ~R_HideBranch(n, b) /\ ~G_HideBranch(n, b)
+    /\ WithRejects /\ UNCHANGED dagvars
+    /\ last' = [op |-> "hidebranch", node |-> n, branch |-> b, ok |-> FALSE, probe |-> TRUE]
+
+(***************************************************************************)
+(* Graph-neutral instance requests of the second round: sync wiring        *)
+(* (POST <instance>/sync, with and without replace=true, clearing) and the *)
+(* deletion of an instance another one is synced with.                     *)
+(***************************************************************************)
+NeutralKindsG == {"setsync", "replacesync", "clearsync", "deletesynced"}
+
+GrowthOps == {"makemaster", "hidebranch"} \cup NeutralKindsG
+OldNames == {"o", "master"} \cup Branches       \* fresh, reserved, possibly in use or inexpressible
+HideNames == {"o", "", "master"} \cup Branches
+\* a repo is named by any of its versions; the root and an unknown UUID suffice for hide-branch
+HideArgs == LiveRoots \cup (IF WithRejects THEN {NoNode} ELSE {})
+\* argument domains of the emitted refused / unspecified growth requests (independent of WithRejects)
+MMArgsAll == Nodes \cup {NoNode}
+HideArgsAll == LiveRoots \cup {NoNode}
+
+NextG ==
+    \/ Next
+    \/ \E n \in NodeArgs, o \in OldNames : MakeMaster_Ok(n, o) \/ MakeMaster_Rej(n, o) \/ MakeMaster_Probe(n, o)
+    \/ \E n \in HideArgs, b \in HideNames : HideBranch_Ok(n, b) \/ HideBranch_Rej(n, b) \/ HideBranch_Probe(n, b)
+    \/ \E k \in NeutralKindsG, n \in LiveRoots : Neutral(k, n)
+
+SpecG == Init /\ [][NextG]_vars
+
+\* a visible version never has a hidden parent; hidden versions are never roots
+Inv_HiddenClosed ==
+    \A n \in Vis : \A i \in 1..Len(par[n]) : par[n][i] \in Vis
+
+Inv_C07G == Inv_C07 /\ Inv_HiddenClosed /\ Inv_HeadsAsReloaded
+
+\* as Act_Monotone, except that make-master renames branches
+Act_MonotoneG ==
+    [][\A n \in Nodes : /\ (lk[n] => lk'[n])
+                        /\ par'[n] = par[n] /\ uid'[n] = uid[n] /\ rp'[n] = rp[n]
+                        /\ (br'[n] = br[n] \/ last'.op = "makemaster")
+                        /\ (kind'[n] = kind[n] \/ last'.op = "hidebranch")]_vars
+
+(***************************************************************************)
+(* Addresses: what <uuid>:<branch>~<k> and UUID prefixes name in a state.  *)
+(***************************************************************************)
+RECURSIVE UpLine(_)
+\* n, its parent, ... up to the root, as long as every version on the way has one parent
+UpLine(n) == IF Len(par[n]) = 0 THEN <<n>>
+             ELSE IF Len(par[n]) = 1 /\ UpLine(par[n][1]) # <<>> THEN <<n>> \o UpLine(par[n][1])
+             ELSE <<>>
+\* named branches whose line up to the root is free of merges: <root>:<b>~k is the k-th entry
+\* (0 = the head); k beyond the root is refused (0 = NoNode)
+AddrObs ==
+    {[root |-> x[1], branch |-> x[2], line |-> UpLine(head[x])] :
+        x \in {y \in DOMAIN head : y[1] \in LiveRoots /\ y[2] # "" /\ UpLine(head[y]) # <<>>}}
+\* master: only where all master versions form one merge-free line
+MasterLine(root) ==
+    LET M == {n \in Vis : rp[n] = root /\ br[n] = ""} IN
+    IF /\ \A n \in M : kind[n] # "merge" /\ Cardinality(KidsOn(n, "")) <= 1
+       /\ Cardinality({n \in M : KidsOn(n, "") = {}}) = 1
+    THEN UpLine(CHOOSE n \in M : KidsOn(n, "") = {}) ELSE <<>>
+\* UUID prefixes: the caller-assigned UUIDs share a prefix P no server-made UUID starts with;
+\* P names a version only while exactly one assigned UUID is live
+PoolLive == {n \in Live : uid[n] \in UUIDPool}
+PrefixObs == [count |-> Cardinality(PoolLive),
+              node |-> IF Cardinality(PoolLive) = 1 THEN CHOOSE n \in PoolLive : TRUE ELSE NoNode,
+              each |-> {[uuid |-> u, node |-> IF \E n \in Live : uid[n] = u THEN CHOOSE n \in Live : uid[n] = u ELSE NoNode] : u \in UUIDPool}]
+\* growth requests of the argument domain that must be refused / whose outcome is unspecified
+GrowthRejected ==
+    {[op |-> "makemaster", node |-> x[1], branch |-> x[2]] : x \in {y \in MMArgsAll \X OldNames : R_MakeMaster(y[1], y[2])}}
+    \cup {[op |-> "hidebranch", node |-> x[1], branch |-> x[2]] : x \in {y \in HideArgsAll \X HideNames : R_HideBranch(y[1], y[2])}}
+GrowthProbes ==
+    {[op |-> "makemaster", node |-> x[1], branch |-> x[2]] :
+        x \in {y \in MMArgsAll \X OldNames : ~R_MakeMaster(y[1], y[2]) /\ ~G_MakeMaster(y[1], y[2])}}
+    \cup {[op |-> "hidebranch", node |-> x[1], branch |-> x[2]] :
+        x \in {y \in HideArgsAll \X HideNames : ~R_HideBranch(y[1], y[2]) /\ ~G_HideBranch(y[1], y[2])}}
+\* accepted hide-branch requests that name no version: nothing changes
+GrowthNoops ==
+    {[op |-> "hidebranch", node |-> x[1], branch |-> x[2]] :
+        x \in {y \in LiveRoots \X HideNames : G_HideBranch(y[1], y[2]) /\ OnBranch(y[1], y[2]) = {}}}
+
+\* parent suffixes that name nothing: <root>:<branch><suffix> must be refused (and answered)
+BadSuffixes == {"~-1", "~", "~x", "~1~1"}
+ObsRec == [addr |-> AddrObs, badsuffix |-> BadSuffixes,
+           master |-> {[root |-> r, line |-> MasterLine(r)] : r \in LiveRoots},
+           prefix |-> PrefixObs]
 
 (***************************************************************************)
 (* Projection printed for replay                                           *)
